@@ -21,7 +21,7 @@ U = 12345
 def pool(B):
     A, Bf, S = B.logf, B.work + "/logB", B.sock
     fmts = ['"%{cmdline}"', '"A:%{filename}"', '"[%{env:TOKV}] %{cmdline}"', '"static text"', '"%{snoopy_literal:lit}/%{cmdline}"']
-    outs = ["file:" + A, "file:" + Bf, "socket:" + S, "devlog", "stdout", "stderr", "devnull", "noop", "nosuch", "file:"]
+    outs = ["file:" + A, "file:" + Bf, "socket:" + S, "devlog", "syslog", "stdout", "stderr", "devnull", "noop", "nosuch", "file:"]
     facs = ["LOCAL3", "DAEMON", "LOG_USER", "auth", "KERN", "bogus"]
     lvls = ["DEBUG", "EMERG", "LOG_ERR", "warning", "bogus"]
     idents = ['"snoopy"', '"id2"', '"%{snoopy_literal:tpl}"', '""']
